@@ -57,7 +57,7 @@ func c27MustRejectCommand(in []byte) string {
 
 func c27Cmd[T any](name string, enc func(T) []byte, ext func(command) (T, bool), eq func(a, b T) bool, vals []c27Named[T]) *kit.Codec {
 	c := &kit.Codec{
-		Name:   "fsm." + name,
+		Name: "fsm." + name,
 		Encode: func(v any) ([]byte, error) {
 			t, ok := v.(T)
 			if !ok {
@@ -401,7 +401,7 @@ func c27FsmCodecs() []*kit.Codec {
 
 	// apply results (fixed magic + payload, not TLV): every strict prefix must be rejected
 	out = append(out, &kit.Codec{
-		Name:   "fsm.ChannelConditionalMutationResult",
+		Name: "fsm.ChannelConditionalMutationResult",
 		Encode: func(v any) ([]byte, error) {
 			return EncodeChannelConditionalMutationResult(&metadb.ChannelConditionalMutationResult{Applied: v.(bool)}), nil
 		},
@@ -417,7 +417,7 @@ func c27FsmCodecs() []*kit.Codec {
 		Headers:         [][]byte{[]byte("WKCM\x01"), []byte("WKCM")},
 	})
 	out = append(out, &kit.Codec{
-		Name:   "fsm.SubscriberMutationResult",
+		Name: "fsm.SubscriberMutationResult",
 		Encode: func(v any) ([]byte, error) {
 			r := v.(metadb.SubscriberMutationResult)
 			return EncodeSubscriberMutationResult(&r), nil
